@@ -12,7 +12,8 @@ package main
 //
 // case line: history ; x=free ; x=reads:<kind>.<kb>.<ka>.<answer>/...      (the realised reads are part of the
 //            case: the run is not deterministic; a replay runs a new race on the same history)
-// obs      : <final rows>|<answer>/<answer>/...
+// obs      : <final rows>|<answer>/<answer>/...|ev=ok   (or ev=<id>:<number of ADD events>,... for the stored headers that did
+//            not get exactly one ADD event)
 //   kind t : GET chain/tip/longest                      answer = id of the reported tip, or E<status>
 //   kind v : POST chain/merkleroot/verify with the roots of the main-chain blocks at heights h(kb), h(kb)+1,
 //            h(kb)+2 (h(k) = main-chain height after k submissions)  answer = verdict letters, or E<status>
@@ -26,6 +27,7 @@ import (
 	"strings"
 	"sync"
 	"sync/atomic"
+	"time"
 )
 
 type c15Read struct {
@@ -65,6 +67,8 @@ func runC15Free(c *Ctx, runs, n int) error {
 			return err
 		}
 		s.SetForbidden(m.ForbiddenHashes())
+		evc := &evCounter{n: map[string]int{}}
+		s.Services.Notifier.AddChannel(evc)
 		const readers = 3
 		// tokens: issued through the service before the race; every request uses the next one
 		var toks []string
@@ -194,6 +198,28 @@ func runC15Free(c *Ctx, runs, n int) error {
 		wg.Wait()
 		rg.Wait()
 		rows, err := s.DumpHeaders()
+		// one ADD event per stored header, also when headers are stored back to back (deliveries run in their own
+		// goroutines: wait briefly for them)
+		for w := 0; w < 200 && evc.total() < len(rows)-1; w++ {
+			time.Sleep(time.Millisecond)
+		}
+		time.Sleep(2 * time.Millisecond)
+		evBad := []string{}
+		for _, row := range rows {
+			if row.Height == 0 {
+				continue
+			}
+			if n := evc.get(row.Hash); n != 1 {
+				evBad = append(evBad, fmt.Sprintf("%d:%d", m.ID(row.Hash), n))
+			}
+		}
+		evs := "ev=ok"
+		if len(evBad) > 0 {
+			if len(evBad) > 12 {
+				evBad = append(evBad[:12], "...")
+			}
+			evs = "ev=" + strings.Join(evBad, ",")
+		}
 		s.Close()
 		if err != nil {
 			return err
@@ -208,7 +234,7 @@ func runC15Free(c *Ctx, runs, n int) error {
 			}
 		}
 		hh := &History{Subs: h.Subs, X: []string{"free", "reads:" + strings.Join(toksIn, "/")}}
-		c.Case(hh.Line(), RowsString(rows, m)+"|"+strings.Join(answers, "/"))
+		c.Case(hh.Line(), RowsString(rows, m)+"|"+strings.Join(answers, "/")+"|"+evs)
 		c.Count("free-run")
 		c.Meta(fmt.Sprintf("c15free_run_%d", run), fmt.Sprintf("submissions=%d reads=%d (tip %d, verify %d, byHeight %d)", len(h.Subs), len(answers), nk["t"], nk["v"], nk["h"]))
 	}
